@@ -381,9 +381,14 @@ class USBResetSequencer(Elaboratable):
             # time it and see how long it lasts
             with m.State('IN_HOST_J'):
 
+                # If our input has become something other than a J, then
+                # we haven't finished our sequence. We'll go back to expecting a J.
+                with m.If(self.line_state != self._LINE_STATE_FS_HS_J):
+                    m.next = 'AWAIT_HOST_J'
+
                 # If we've exceeded our minimum chirp time, consider this a valid pattern
                 # bit, and advance in the pattern.
-                with m.If(line_state_time == self._CYCLES_2P5_MICROSECONDS):
+                with m.Elif(line_state_time == self._CYCLES_2P5_MICROSECONDS):
 
                     # If this would complete our third pair, this completes a handshake,
                     # and we've identified a high speed host!
@@ -394,11 +399,6 @@ class USBResetSequencer(Elaboratable):
                     with m.Else():
                         m.d.usb += valid_pairs.eq(valid_pairs + 1)
                         m.next = 'AWAIT_HOST_K'
-
-                # If our input has become something other than a K, then
-                # we haven't finished our sequence. We'll go back to expecting a K.
-                with m.If(self.line_state != self._LINE_STATE_FS_HS_J):
-                    m.next = 'AWAIT_HOST_J'
 
                 # Time out if we exceed our maximum allowed duration.
                 with m.If(timer == self._CYCLES_2P5_MILLISECONDS):
